@@ -121,6 +121,7 @@ class Table:
                     was = a.attrs.get("_target") is not None
                     if was and rnd == 1 and g[i][0] == "imp":
                         pass  # resolved as part of another chain: resolving again must be harmless
+                    flags_before = {k_ for k_, v_ in a.attrs.items() if k_.startswith("_") and v_ is True}
                     try:
                         it.call(self.meth(a, "resolve_target"), a)
                         outcome = "ok"
@@ -128,8 +129,9 @@ class Table:
                         outcome = r.exc
                     if outcome != "ok" and outcome not in AE:
                         return f"x{i}.resolve_target() raises {outcome}"
-                    if bool(a.attrs.get("_passed_through")):
-                        return f"x{i} is left marked as being resolved (_passed_through) after resolve_target()"
+                    left_set = sorted(k_ for k_, v_ in a.attrs.items() if k_.startswith("_") and v_ is True and k_ not in flags_before)
+                    if left_set:  # the re-entrancy marker, whatever it is called
+                        return f"x{i} is left marked as being resolved ({', '.join(left_set)} still set) after resolve_target()"
                     if outcome == "ok":
                         st, ft = self.deref(a, "final_target")
                         if st != "ok":
